@@ -1,10 +1,10 @@
 SPECIFICATION Spec
 CONSTANTS
-  Alphabet = {"lt", "gt", "slash", "qmark", "bang", "eq", "dq", "sp", "nl", "x", "nul"}
+  Alphabet = {"lt", "gt", "slash", "sp", "x", "eq", "nul"}
   MaxLen = 5
-  Emit = TRUE
+  Emit = FALSE
   VoidClosesTag = TRUE
-  NameStopNeedsGt = TRUE
+  NameStopNeedsGt = FALSE
   DoctypeQuote = "remember"
   NulInTagIsError = TRUE
 INVARIANT TypeOK
